@@ -12,6 +12,8 @@ package main
 import (
 	"context"
 	"fmt"
+	"io"
+	"sync/atomic"
 	"time"
 
 	godi "github.com/junioryono/godi/v4"
@@ -165,4 +167,300 @@ func probeRound(form, life, order string) (msg string) {
 		return m
 	}
 	return check(freeName, hf, freeScope)
+}
+
+// ---------------------------------------------------------------------------------------------------------------
+// Order probe (C11): a construction that finishes while its scope is being closed.
+//
+// Scope S has a child scope holding a resource whose Close can be held. Thread 1 resolves, in S, a disposable service
+// whose constructor can be held (its disposable dependency is constructed first). Thread 2 closes S: it starts with the
+// child scope and is held inside the child resource's Close. The constructor of thread 1 is then released and its
+// resolution runs to the end; then the child's Close is released. "All descendant scopes are completely disposed
+// before their parent disposes its own instances", and within S the reverse of the creation order: the order of the
+// Close calls must be child resource, service, dependency. Variants: the number of instances S already owns, and
+// whether the service is scoped or transient. The oracle needs no model.
+
+type oRes struct {
+	name string
+	log  *oLog
+	hold chan struct{}
+	at   chan struct{}
+}
+type oLog struct {
+	ch chan string
+}
+
+func (l *oLog) add(s string) { l.ch <- s }
+func (r *oRes) Close() error {
+	r.log.add("begin " + r.name)
+	if r.hold != nil {
+		r.at <- struct{}{}
+		<-r.hold
+	}
+	r.log.add("end " + r.name)
+	return nil
+}
+
+type oDep struct{ *oRes }
+type oSvc struct{ *oRes }
+type oChild struct{ *oRes }
+type oEarly struct{ *oRes }
+
+func orderProbe() ProbeReport {
+	rep := ProbeReport{}
+	for _, life := range []string{"scoped", "transient"} {
+		for _, early := range []bool{false, true} {
+			rep.Rounds++
+			if msg := orderRound(life, early); msg != "" {
+				rep.Bad = append(rep.Bad, fmt.Sprintf("%s/early=%v: %s", life, early, msg))
+			}
+		}
+	}
+	return rep
+}
+
+func orderRound(life string, early bool) (msg string) {
+	defer func() {
+		if v := recover(); v != nil {
+			msg = fmt.Sprintf("panic: %v", v)
+		}
+	}()
+	must := func(err error) {
+		if err != nil {
+			panic(err)
+		}
+	}
+	lg := &oLog{ch: make(chan string, 64)}
+	holdCtor := make(chan struct{})
+	inCtor := make(chan struct{}, 1)
+	holdClose := make(chan struct{})
+	inClose := make(chan struct{}, 1)
+	c := godi.NewCollection()
+	must(c.AddScoped(func() *oEarly { return &oEarly{&oRes{name: "early", log: lg}} }))
+	must(c.AddScoped(func() *oDep { return &oDep{&oRes{name: "dep", log: lg}} }))
+	must(c.AddScoped(func() *oChild { return &oChild{&oRes{name: "child", log: lg, hold: holdClose, at: inClose}} }))
+	ctor := func(d *oDep) *oSvc {
+		inCtor <- struct{}{}
+		<-holdCtor
+		return &oSvc{&oRes{name: "svc", log: lg}}
+	}
+	if life == "scoped" {
+		must(c.AddScoped(ctor))
+	} else {
+		must(c.AddTransient(func(s godi.Scope) *oSvc {
+			d, err := godi.Resolve[*oDep](s)
+			must(err)
+			return ctor(d)
+		}))
+	}
+	p, err := c.Build()
+	must(err)
+	defer p.Close()
+	s, err := p.CreateScope(context.Background())
+	must(err)
+	ch, err := s.CreateScope(context.Background())
+	must(err)
+	_, err = godi.Resolve[*oChild](ch)
+	must(err)
+	if early {
+		_, err = godi.Resolve[*oEarly](s)
+		must(err)
+	}
+	resolved := make(chan error, 1)
+	go func() {
+		_, err := godi.Resolve[*oSvc](s)
+		resolved <- err
+	}()
+	select {
+	case <-inCtor:
+	case <-time.After(5 * time.Second):
+		return "the resolution never reached the service's constructor"
+	}
+	closed := make(chan error, 1)
+	go func() { closed <- s.Close() }()
+	select {
+	case <-inClose:
+	case <-time.After(5 * time.Second):
+		return "Close of the scope never reached the child scope's resource"
+	}
+	close(holdCtor)
+	select {
+	case <-resolved:
+	case <-time.After(5 * time.Second):
+		return "the held resolution never finished"
+	}
+	close(holdClose)
+	select {
+	case <-closed:
+	case <-time.After(5 * time.Second):
+		return "Close of the scope never finished"
+	}
+	var evs []string
+	for len(lg.ch) > 0 {
+		evs = append(evs, <-lg.ch)
+	}
+	want := []string{"begin child", "end child", "begin svc", "end svc", "begin dep", "end dep"}
+	if early {
+		want = append(want, "begin early", "end early")
+	}
+	if fmt.Sprint(evs) != fmt.Sprint(want) {
+		return fmt.Sprintf("close calls %v, expected %v (descendant scopes completely first, then the scope's own instances newest first)", evs, want)
+	}
+	return ""
+}
+
+// ---------------------------------------------------------------------------------------------------------------
+// Overlap probe (C13, C15): a scope is closed while a construction in it is still inside the constructor.
+//
+// "An operation that overlaps a Close either completes normally or reports the disposed error - it never panics,
+// hangs, or returns a half-initialised result", for every constructor form: the pending resolution must return
+// (a value or an error, no panic), and every disposable the constructor made must have been closed exactly once
+// when everything is over (the scope was already closed when they were handed to it: nobody else will close them).
+
+type vA struct {
+	closed *int32
+}
+
+func (a *vA) Close() error { atomic.AddInt32(a.closed, 1); return nil }
+
+type vB struct{ closed *int32 }
+
+func (b *vB) Close() error { atomic.AddInt32(b.closed, 1); return nil }
+
+type vI interface{ Close() error }
+
+type vOut struct {
+	godi.Out
+	A *vA
+	B *vB
+}
+type vOutG struct {
+	godi.Out
+	A *vA
+	B *vB `group:"bs"`
+}
+
+func overlapProbe() ProbeReport {
+	rep := ProbeReport{}
+	for _, form := range []string{"plain", "multi-return", "multi-return-nil", "result", "result-nil-field", "result-group", "as-two"} {
+		for _, life := range []string{"scoped", "transient"} {
+			rep.Rounds++
+			if msg := overlapRound(form, life); msg != "" {
+				rep.Bad = append(rep.Bad, fmt.Sprintf("%s/%s: %s", form, life, msg))
+			}
+		}
+	}
+	return rep
+}
+
+func overlapRound(form, life string) (msg string) {
+	defer func() {
+		if v := recover(); v != nil {
+			msg = fmt.Sprintf("panic: %v", v)
+		}
+	}()
+	must := func(err error) {
+		if err != nil {
+			panic(err)
+		}
+	}
+	var ca, cb int32
+	made := 0 // how many disposables the constructor hands back
+	hold := make(chan struct{})
+	in := make(chan struct{}, 1)
+	wait := func() {
+		in <- struct{}{}
+		<-hold
+	}
+	c := godi.NewCollection()
+	add := c.AddScoped
+	if life == "transient" {
+		add = c.AddTransient
+	}
+	switch form {
+	case "plain":
+		made = 1
+		must(add(func() *vA { wait(); return &vA{&ca} }))
+	case "multi-return":
+		made = 2
+		must(add(func() (*vA, *vB) { wait(); return &vA{&ca}, &vB{&cb} }))
+	case "multi-return-nil":
+		made = 1
+		must(add(func() (*vA, vI) { wait(); return &vA{&ca}, nil }))
+	case "result":
+		made = 2
+		must(add(func() vOut { wait(); return vOut{A: &vA{&ca}, B: &vB{&cb}} }))
+	case "result-nil-field":
+		made = 1
+		must(add(func() vOut { wait(); return vOut{A: &vA{&ca}} }))
+	case "result-group":
+		made = 2
+		must(add(func() vOutG { wait(); return vOutG{A: &vA{&ca}, B: &vB{&cb}} }))
+	case "as-two":
+		made = 1
+		must(add(func() *vA { wait(); return &vA{&ca} }, godi.As[vI](), godi.As[io.Closer]()))
+	}
+	p, err := c.Build()
+	must(err)
+	defer p.Close()
+	s, err := p.CreateScope(context.Background())
+	must(err)
+	type res struct {
+		err   error
+		panic any
+	}
+	done := make(chan res, 1)
+	go func() {
+		var r res
+		defer func() {
+			if v := recover(); v != nil {
+				r.panic = v
+			}
+			done <- r
+		}()
+		if form == "as-two" {
+			_, r.err = godi.Resolve[vI](s)
+		} else {
+			_, r.err = godi.Resolve[*vA](s)
+		}
+	}()
+	select {
+	case <-in:
+	case <-time.After(5 * time.Second):
+		return "the resolution never reached the constructor"
+	}
+	closed := make(chan error, 1)
+	go func() { closed <- s.Close() }()
+	closeDone := false
+	select {
+	case <-closed:
+		closeDone = true
+	case <-time.After(2 * time.Second):
+		// a Close that waits for the construction is fine too: release it and wait again
+	}
+	close(hold)
+	var r res
+	select {
+	case r = <-done:
+	case <-time.After(5 * time.Second):
+		return "the pending resolution never returned"
+	}
+	if r.panic != nil {
+		return fmt.Sprintf("the pending resolution panicked: %v", r.panic)
+	}
+	if !closeDone {
+		select {
+		case <-closed:
+		case <-time.After(5 * time.Second):
+			return "Close of the scope never returned"
+		}
+	}
+	must(p.Close())
+	if got := int(atomic.LoadInt32(&ca) + atomic.LoadInt32(&cb)); got != made {
+		return fmt.Sprintf("the constructor made %d disposable instances, %d Close calls were made on them after the scope and the provider were closed (resolution returned: %v)", made, got, r.err)
+	}
+	if atomic.LoadInt32(&ca) > 1 || atomic.LoadInt32(&cb) > 1 {
+		return "an instance was closed twice"
+	}
+	return ""
 }
